@@ -6,8 +6,11 @@
    .rela.dyn general / relative, .relr.dyn) over (a) the relocation-site product of Reloc.tla
    x parity of the offset in the input section x parity of the output address x "the file has
    another RELR reservation" and (b) the product of the ValueFlags bits the resolution functions
-   test.  The two sides agree everywhere except on three named deviations; the strict invariant
-   (no deviation allowed) must fail - it is the statement of the defects.
+   test.  The RELR eligibility rule is the one of the tree (elf::relr_eligible: even offset in a
+   section aligned >= 2, used by layout and writer).  The two sides agree everywhere except on two
+   named open deviations; the strict invariant (no deviation allowed) must fail - it is the
+   statement of the defects; the old RELR rule (layout by offset parity, writer by address parity,
+   fixed in the tree) is kept as a variant that TLC must reject (mc/Alloc_oldrelr.cfg).
 2. Replay: every sampled (quick) / every (thorough) site record is realised (pad / 1-aligned section
    after a 1-byte section for the parities, an extra aligned pointer for the sibling reservation)
    and linked by the real wild; the spec predicts exactly which links fail with an accounting error.
@@ -18,6 +21,7 @@
 Every link is judged by vlib.allocprobe.is_alloc_failure on wild's diagnostic.
 """
 import itertools
+import os
 import json
 import random
 from concurrent.futures import ProcessPoolExecutor
@@ -31,7 +35,7 @@ META = {
     "ready": True,
     "level": "model_checking",
     "technique": "TLA+ specification with two independent transcriptions (layout-side reservation vs writer-side consumption) compared exhaustively by TLC; the enumerated cases and an option cross product replayed into the real linker, whose diagnostics are matched against the accounting-failure messages",
-    "level_text": "TLC compares reservation and consumption per generated part on all 2087 accepted relocation-site cases x offset parity x address parity x sibling-RELR (x86-64) and on all 520 reachable ValueFlags combinations x 5 output kinds x RELR; agreement holds except on three named deviations, which the replay reproduces on the real binary and nothing else fails. An option cross product (432 combinations) over single-site programs of all five output kinds is linked by the real wild.",
+    "level_text": "TLC compares reservation and consumption per generated part on all 2240 accepted relocation-site cases x offset parity x address parity x section alignment class (x86-64) and on all 520 reachable ValueFlags combinations x 5 output kinds x RELR; agreement holds except on two named open deviations, which the replay reproduces on the real binary and nothing else fails; the old RELR parity rule (fixed in the tree) is rejected by TLC as a broken variant. An option cross product (432 combinations) over single-site programs of all five output kinds is linked by the real wild.",
     "level_note": "Parts modelled: GOT, PLT-GOT, .rela.plt, .rela.dyn (general/relative), .relr.dyn; symbol tables, hash tables, eh_frame, version and note parts are covered only by the option cross product replay (hook-free probe of wild's diagnostics), not by the model. x86-64 only.",
     "engine": "tlc",
 }
@@ -48,33 +52,40 @@ OPTS = {
 
 
 def model(ctx, cov):
-    r = tlc.run_tlc("MCAlloc", "mc/Alloc_site.cfg", workers=8, timeout=900, coverage=False)
+    # the four TLC runs are independent: run them side by side (JVM start-up dominates each)
+    from concurrent.futures import ThreadPoolExecutor
+    cfgs = ["mc/Alloc_site.cfg", "mc/Alloc_symbol.cfg", "mc/Alloc_strict.cfg", "mc/Alloc_oldrelr.cfg"]
+    with ThreadPoolExecutor(max_workers=4) as ex:
+        r, rs, rb, ro = list(ex.map(lambda c: tlc.run_tlc("MCAlloc", c, workers=4 if "site" in c else 2, timeout=900,
+                                                           coverage=False, name=f"MCAlloc.{c.split(chr(47))[-1]}.{os.getpid()}"), cfgs))
     if not r.ok or r.depth != 3 or r.distinct != 3 * len(r.records) or len(r.records) < 2000:
         raise ToolError(f"Alloc site model failed: ok={r.ok} {r.violated} {r.error_text} depth={r.depth} states={r.distinct} "
                         f"records={len(r.records)}\n{r.trace_text[:2500]}")
-    rs = tlc.run_tlc("MCAlloc", "mc/Alloc_symbol.cfg", workers=8, timeout=900, coverage=False)
     if not rs.ok or rs.depth != 3 or rs.distinct < 1000:
         raise ToolError(f"Alloc symbol-level model failed: {rs.violated} {rs.error_text}\n{rs.trace_text[:2500]}")
-    rb = tlc.run_tlc("MCAlloc", "mc/Alloc_strict.cfg", workers=8, timeout=900, coverage=False)
     if rb.ok or rb.violated != "InvStrict":
         raise ToolError("the strict accounting invariant holds on the transcription: the deviations are stale or the model is vacuous")
+    if ro.ok or ro.violated != "InvAccounting":
+        raise ToolError("the old RELR rule (offset parity at layout, address parity at write) was NOT rejected by InvAccounting")
     cov["states"] = r.distinct + rs.distinct
     cov["transitions"] = r.generated + rs.generated
     cov["tlc_runs"] = [{"cfg": "mc/Alloc_site.cfg", **r.summary(), "records": len(r.records)},
                        {"cfg": "mc/Alloc_symbol.cfg", **rs.summary()},
-                       {"cfg": "mc/Alloc_strict.cfg", "expected_violation": rb.violated}]
+                       {"cfg": "mc/Alloc_strict.cfg", "expected_violation": rb.violated},
+                       {"cfg": "mc/Alloc_oldrelr.cfg", "expected_violation": ro.violated}]
     return r.records
 
 
 def rec_to_case(rec):
     c = {k: rec[k] for k in ("sym", "ref", "out", "secw", "relax", "relr")}
-    if rec["ref"] in rg.DATA_REFS and (rec["offpar"] or rec["addrpar"]):
+    if rec["ref"] in rg.DATA_REFS and (rec["offpar"] or rec["addrpar"] or not rec.get("aligned", True)):
         c["pad"] = int(rec["offpar"])
-        c["align"] = 1
-        if rec["offpar"] != rec["addrpar"]:
-            c["shift"] = 1
-    elif rec["ref"] in rg.DATA_REFS and rec.get("sibling"):
-        pass
+        if rec.get("aligned", True):
+            c["align"] = 8               # aligned section: the address has the parity of the offset
+        else:
+            c["align"] = 1
+            if rec["offpar"] != rec["addrpar"]:
+                c["shift"] = 1           # 1-aligned section after a 1-byte section: odd start
     if rec.get("sibling"):
         c["sibling"] = True
     return c
@@ -137,9 +148,12 @@ def run(ctx):
             by.setdefault((r["dev"], r["failure"], r["out"] == "staticpie"), []).append(r)
         pick = []
         for k in sorted(by):
-            pick += rng.sample(by[k], min(3 if k[2] else 8, len(by[k])))
-        lite = [r for r in plain if r["out"] != "staticpie"]
-        pick += rng.sample(lite, 110) + rng.sample([r for r in plain if r["out"] == "staticpie"], 8)
+            pick += rng.sample(by[k], min(2 if k[2] else 6, len(by[k])))
+        # where the fixed relr-parity defect used to show: RELR on, odd offset / odd address / 1-aligned section
+        par = [r for r in plain if r["relr"] and (r["offpar"] or r["addrpar"] or not r["aligned"])]
+        pick += rng.sample([r for r in par if r["out"] != "staticpie"], 36) + rng.sample([r for r in par if r["out"] == "staticpie"], 4)
+        lite = [r for r in plain if r["out"] != "staticpie" and r not in par]
+        pick += rng.sample(lite, 50) + rng.sample([r for r in plain if r["out"] == "staticpie"], 3)
     else:
         pick = recs
     with scratch("c23") as d:
@@ -158,7 +172,14 @@ def run(ctx):
                     cause = rec["dev"]
                 else:
                     n_unpred += 1
-                    cause = f"unpredicted:{rr.case_key(res['case'], 'site')}"
+                    c = res["case"]
+                    # RELR enabled, data pointer, non-default parity/alignment realisation: the signature of the
+                    # relr-parity defect (fixed in the tree; a `fixed:` line suppresses nothing)
+                    if c.get("relr") and rec["dev"] == "" and c["ref"] in rg.DATA_REFS and \
+                            (c.get("pad") or c.get("shift") or c.get("align") == 1 or c.get("sibling")):
+                        cause = "relr-parity"
+                    else:
+                        cause = f"unpredicted:{rr.case_key(res['case'], 'site')}"
                 if ld_ok:
                     report(ctx, res, cause, f"; spec: {rec['dev'] or 'no deviation'} ({rec['failure']})")
                 else:
@@ -193,7 +214,7 @@ def run(ctx):
         cases = []
         for r in base:
             if ctx.quick:
-                sel = rng.sample(combos, 4 if r["out"] == "staticpie" else 14)
+                sel = rng.sample(combos, 3 if r["out"] == "staticpie" else 9)
             else:
                 sel = combos if r["out"] != "staticpie" else rng.sample(combos, 60)
             for combo in sel:
